@@ -144,8 +144,8 @@ static void copy_even(uint8_t *luma, uint32_t wd, uint32_t ht, uint32_t stride, 
 }
 /* Copy from recon buffer to out buffer! */
 int svt_dec_out_buf(EbDecHandle *dec_handle_ptr, EbBufferHeaderType *p_buffer) {
-    EbPictureBufferDesc *recon_picture_buf = dec_handle_ptr->cur_pic_buf[0]->ps_pic_buf;
-    EbSvtIOFormat *      out_img           = (EbSvtIOFormat *)p_buffer->p_buffer;
+    EbPictureBufferDesc *recon_picture_buf;
+    EbSvtIOFormat *      out_img = (EbSvtIOFormat *)p_buffer->p_buffer;
 
     uint8_t *luma = NULL;
     uint8_t *cb   = NULL;
@@ -156,6 +156,8 @@ int svt_dec_out_buf(EbDecHandle *dec_handle_ptr, EbBufferHeaderType *p_buffer) {
         assert(0 == dec_handle_ptr->show_existing_frame);
         return 0;
     }
+    /* cur_pic_buf[0] is only set once a frame header has been parsed (show_frame is 0 until then) */
+    recon_picture_buf = dec_handle_ptr->cur_pic_buf[0]->ps_pic_buf;
 
     uint32_t wd = dec_handle_ptr->frame_header.frame_size.superres_upscaled_width;
     uint32_t ht = dec_handle_ptr->frame_header.frame_size.frame_height;
